@@ -112,6 +112,8 @@ def run(an: Analysis, rep):
     rep.run(c03.r033, an, sh, c03.table_class(an))
     from . import c02
     rep.run(c02.jump_rules, an, SharedRules(rep, "R06.C", "jump and cell/free operand arithmetic agree between encoder and decoder (shared with C02's R02.3/R02.4): a code round trip keeps every operand's class and target, so re-normalizing gives the same data"))
+    from . import c10
+    rep.run(c10.format_rules, an, SharedRules(rep, "R06.L", "line-table format constants (shared with C10's R10.*): the lines of the normal form survive to_code / from_code"))
     from . import c05
     rep.run(c05.r053, an, SharedRules(rep, "R06.D", "docstring slot (shared with C05's R05.3): normalize -> to_code -> from_code -> normalize keeps `docstring`"))
     from . import c07
